@@ -48,7 +48,7 @@ def build_project(rng):
 def run(tier, seed, replay=None):
     res = Result("C17", tier, seed, RULE)
     rng = rng_for(seed, "C17")
-    ncrates = 3 if tier == "quick" else 20
+    ncrates = 3 if tier == "quick" else 40
     crates, projs = [], []
     for ci in range(ncrates):
         p = build_project(rng)
